@@ -308,7 +308,8 @@ func (e *Enc) applyContract(v ssa.Value, ci *calleeInfo, fc *FuncContract, st *S
 	e.bindCallee(ci, post)
 	e.bindResults(post, ci.sig, results)
 	for _, c := range fc.Ensures {
-		e.assume(fmt.Sprintf("(=> %s %s)", guard, post.evalBool(c)))
+		// a callee postcondition that names one of the callee's locals says nothing to a caller
+		e.assume(fmt.Sprintf("(=> %s %s)", guard, e.factOf(post, c)))
 	}
 }
 
